@@ -332,7 +332,13 @@ func (l *PartitionLog) Flush(ctx context.Context) error {
 		if target == nil {
 			verifGate(ctx, "pubread", l)
 			l.mu.Lock()
-			current := l.nextOffset - 1
+			// Publish only what is durable: the last offset of the last committed
+			// segment. nextOffset-1 may already include batches appended since
+			// prepareFlush released the lock, which are still only in memory.
+			current := int64(-1)
+			if n := len(l.segments); n > 0 {
+				current = l.segments[n-1].lastOffset
+			}
 			verifTrace(ctx, "PubRead", l, current, 0)
 			l.mu.Unlock()
 			if current >= 0 {
